@@ -100,7 +100,7 @@ def main():
                     "evidence_file": f"evidence/{pid}.json",
                     "replay_cmd_template": "./check replay {path}",
                     "engine": "tla-mbt",
-                    "level_claimed": {"category": c.get("category", "model_checking"), "text": c["text"], "design_ref": c["design"]},
+                    "level_claimed": {"category": c.get("category", "model_checking"), "text": c["text"], "design_ref": f"DESIGN.md §3 (specifications), §6 ({pid})"},
                     "level_note": c["note"],
                     "technique": c["technique"],
                 }
